@@ -193,7 +193,8 @@ def table():
         r = os.path.join(SEEDED, sid, "result.json")
         if os.path.exists(r):
             j = json.load(open(r))
-            rows.append((sid, j["detected_by_target_check"], ",".join(j["detected_by"]), ",".join(j.get("harness_errors", []))))
+            only = "" if len(j.get("checks_run", ALL)) == len(ALL) else "  (only the target check was run)"
+            rows.append((sid, j["detected_by_target_check"], ",".join(j["detected_by"]) + only, ",".join(j.get("harness_errors", []))))
         else:
             rows.append((sid, None, "(not run)", ""))
     lines = []
